@@ -29,20 +29,26 @@ def run(ck):
     ck.cov["rule"] = ("one-shard contexts: every multiset of <=5 member kinds out of {healthy, healthy exactly ttl ago, waiting, failed x NodeHost "
                       "{unknown, live no log, live+log of another replica, silent ttl+step, live+log}} x 9 spare-NodeHost patterns (none / live same or "
                       "other region / gaps ttl-step, ttl, ttl+step / already hosting / unknown-region) x 2 region patterns x defined size in "
-                      "{members-1 (surplus member), members} (quick: the 5-member part is sampled); plus PRNG contexts with 1..4 shards sharing 3..8 "
+                      "{members-1 (surplus member), members} (quick: every multiset with a healthy majority, a PRNG sample of the others); plus PRNG contexts with 1..4 shards sharing 3..8 "
                       "NodeHosts, kill lists, undefined shards; scripted random source incl. id 0 and an id collision. "
                       "Non-trivial = the round produced a request, an error or a panic; distinct by md5 of the context line.")
+    import time
+    t0 = time.time()
     proofs_ok = ck.proofs(["theories/SchedRun.vo"])
+    t1 = time.time()
     eng = se.Engine(ck)
     if not eng.build():
         return
+    ck.cov["timing"] = {"proofs_s": round(t1 - t0, 1), "go_build_s": round(time.time() - t1, 1)}
     quick = ck.tier == "quick"
     if ck.replay:
         ctxs = [se.normalize_ctx(json.load(open(ck.replay))["context"])]
         full = 0
     else:
         ctxs = se.load_corpus("C02") + [se.normalize_ctx(c) for c in special_contexts(eng.ttl, eng.step)]
-        one, full = se.gen_one_shard(ck, eng.ttl, eng.step, 5, 11000 if quick else 10 ** 9, kinds=KINDS)
+        # every multiset with a healthy majority (where ADD / DELETE are decided) is kept in full, the rest is sampled
+        maj = lambda kinds: 2 * len([k for k in kinds if k in ("H0", "H1")]) > len(kinds)
+        one, full = se.gen_one_shard(ck, eng.ttl, eng.step, 5, 10000 if quick else 10 ** 9, kinds=KINDS, prefer=maj)
         ctxs += one
         ctxs += [se.gen_random_ctx(ck.rng, eng.ttl, eng.step) for _ in range(1500 if quick else 30000)]
 
@@ -60,4 +66,4 @@ def run(ck):
                 ck.cov["id_collision"] = ("scripted random source returning the id of an existing member: outcome %s; the code does not check for a "
                                           "collision (probability <= members/2^64 per draw), hypothesis fresh_id of C02_add_justified" % (o[:2],))
     ck.cov["exhaustive"] = False
-    ck.cov["exhaustive_part"] = "one-shard enumeration has %d contexts, %s of them run in this tier" % (full, "a PRNG sample (all with <=4 members)" if quick else "all")
+    ck.cov["exhaustive_part"] = "one-shard enumeration has %d contexts, %s of them run in this tier" % (full, "every context with a healthy majority and a PRNG sample of the others" if quick else "all")
